@@ -557,4 +557,217 @@ theorem runLoop_eff_pos (g : Graph) (hwf : graphWF g = true) (w : Nat) (fuel : N
           ((he.trans (silent_setPc g w s1 .failed rfl))).nonTest hpc0⟩
       · simp at hf
 
+/-! ## the resumption part of a step -/
+
+theorem phase_beq_pre (ph : Phase) : (ph == Phase.pre) = true ↔ ph = Phase.pre := by cases ph <;> decide
+
+/-- the placeholder of execution `tag` is replaced by the result (test proper) -/
+def settleNd (s : State) (n : Nat) (res : Result) (tag : Nat) : State :=
+  s.setNd n (fun d => { d with results := (d.results ++ [res]).filter (fun r => !(r.status == "UNKNOWN" && r.tag == tag)) })
+
+/-- … (creation pre-step: on the worker's copy) -/
+def settlePre (s : State) (w : Nat) (res : Result) (tag : Nat) : State :=
+  s.setWd w (fun d => { d with preResults := (d.preResults ++ [res]).filter (fun r => !(r.status == "UNKNOWN" && r.tag == tag)) })
+
+/-- a failed creation pre-step is accounted to the object root -/
+def appendPre (s : State) (n w : Nat) : State :=
+  s.setNd n (fun d => { d with results := d.results ++ (s.wd w).preResults.drop d.results.length })
+
+/-- same node records, worker records and tag counter -/
+def SameBook (s s' : State) : Prop := s'.nodes = s.nodes ∧ s'.workers = s.workers ∧ s'.nextTag = s.nextTag
+
+def keys (s : State) : List (String × String) := s.jobResults.map (fun r => (r.1, r.2.1))
+
+/-- the continuation after the awaited test: second step of a creation, or back into the loop -/
+def ContEff (g : Graph) (w n : Nat) (ph : Phase) (dir : Dir) (sc : State) (ok : Bool) (s' : State) : Prop :=
+  (ph = .pre ∧ ok = true ∧ s' = (startTest g sc n w .main dir).1) ∨
+  (¬(ph = .pre ∧ ok = true) ∧
+    ((Silent g w (if ph = .pre then appendPre sc n w else sc) s' ∧ (s'.wd w).pc.isTest = false) ∨
+      ∃ s1, Silent g w (if ph = .pre then appendPre sc n w else sc) s1 ∧ StartFrom g w s1 s'))
+
+theorem continueAfter_eff (g : Graph) (hwf : graphWF g = true) (w n : Nat) (ph : Phase) (dir : Dir) (fuel : Nat) (hf : 0 < fuel)
+    (sc : State) (ok : Bool) (evs : List Event) (hw : w < sc.workers.length)
+    (hpath : ∀ x ∈ (sc.wd w).path, x < g.nodes.length) :
+    ContEff g w n ph dir sc ok (resumeTest.continueAfter g w n ph dir fuel sc ok evs).1 := by
+  unfold resumeTest.continueAfter
+  dsimp only
+  by_cases hc : (ph == Phase.pre && ok) = true
+  · simp only [hc, if_true]
+    left
+    rw [Bool.and_eq_true] at hc
+    exact ⟨(phase_beq_pre ph).mp hc.1, hc.2, rfl⟩
+  · simp only [hc, Bool.false_eq_true, if_false]
+    right
+    refine ⟨fun ⟨a, b⟩ => hc (by rw [a, b]; rfl), ?_⟩
+    have hsd : (if (ph == Phase.pre) = true then
+          sc.setNd n (fun d => { d with results := d.results ++ List.drop d.results.length (sc.wd w).preResults })
+        else sc) = (if ph = .pre then appendPre sc n w else sc) := by
+      by_cases hp : ph = .pre
+      · simp only [hp, if_true]; rfl
+      · have : ¬ (ph == Phase.pre) = true := fun h => hp ((phase_beq_pre ph).mp h)
+        simp only [hp, this, Bool.false_eq_true, if_false]
+    rw [hsd]
+    have hwd : ((if ph = .pre then appendPre sc n w else sc).wd w) = sc.wd w := by split <;> rfl
+    have hlen : (if ph = .pre then appendPre sc n w else sc).workers.length = sc.workers.length := by split <;> rfl
+    generalize (if ph = .pre then appendPre sc n w else sc) = sd at hwd hlen ⊢
+    have h0 := silent_finishTraverse g w sd n w
+    have h1 := afterTraverse_silent g hwf (finishTraverse sd n w) w n
+      ((sc.wd w).path.getD ((sc.wd w).path.length - 2) 0) dir
+    rcases hat : afterTraverse g (finishTraverse sd n w) w n ((sc.wd w).path.getD ((sc.wd w).path.length - 2) 0) dir with ⟨s2, e2, f⟩
+    rw [hat] at h1
+    have h01 : Silent g w sd s2 := h0.trans h1
+    have hw2 : w < s2.workers.length := by rw [h01.workersLen, hlen]; exact hw
+    have hp2 : ∀ x ∈ (s2.wd w).path, x < g.nodes.length := h01.path (by rw [hwd]; exact hpath)
+    have hloop : ∀ evs', ((Silent g w sd (runLoop g w fuel s2 evs').1 ∧ ((runLoop g w fuel s2 evs').1.wd w).pc.isTest = false) ∨
+        ∃ s1, Silent g w sd s1 ∧ StartFrom g w s1 (runLoop g w fuel s2 evs').1) := by
+      intro evs'
+      rcases runLoop_eff_pos g hwf w fuel hf s2 evs' hw2 hp2 with ⟨h, hpc⟩ | ⟨s1, h, hs⟩
+      · exact Or.inl ⟨h01.trans h, hpc⟩
+      · exact Or.inr ⟨s1, h01.trans h, hs⟩
+    cases f with
+    | raise what =>
+      dsimp only
+      left
+      refine ⟨h01.trans (silent_setPc g w s2 .failed rfl), ?_⟩
+      rw [wd_setWd_eq s2 w _ hw2]; rfl
+    | cont => exact hloop _
+    | suspend => exact hloop _
+    | exit => exact hloop _
+
+/-- what the test stub did at the end of the task: nothing, or one record appended to the job results -/
+def RepEff (s : State) (name uid : String) (wait : Nat) (out : Outcome) (sa : State) : Prop :=
+  sa = s ∨ (wait = 0 ∧ ∃ st, out.status = some st ∧ SameBook s sa ∧ sa.jobResults = s.jobResults ++ [(name, uid, st, out.dur)])
+
+/-- shape of `resumeTest` -/
+def TestEff (g : Graph) (s : State) (w n : Nat) (ph : Phase) (dir : Dir) (uid : String) (tag wait : Nat) (out : Outcome)
+    (s' : State) : Prop :=
+  ∃ sa, RepEff s (if ph = .pre then (s.wd w).preName else (g.node n).name) uid wait out sa ∧
+    ((∃ e, sa.jobResults.find? (fun r => r.1 == (if ph = .pre then (s.wd w).preName else (g.node n).name) && r.2.1 == uid) = some e ∧
+        ∃ sb res ok, SameBook sa sb ∧ keys sb = keys sa ∧ res.tag = 0 ∧
+          ContEff g w n ph dir (if ph = .pre then settlePre sb w res tag else settleNd sb n res tag) ok s') ∨
+     (sa.jobResults.find? (fun r => r.1 == (if ph = .pre then (s.wd w).preName else (g.node n).name) && r.2.1 == uid) = none ∧
+        (s' = sa.setWd w (fun d => { d with pc := .test n ph dir uid tag (wait + 1) }) ∨ ContEff g w n ph dir sa false s')))
+
+theorem SameBook.wd {s s' : State} (h : SameBook s s') (v : Nat) : s'.wd v = s.wd v := by
+  unfold State.wd; rw [h.2.1]
+
+theorem SameBook.nd {s s' : State} (h : SameBook s s') (m : Nat) : s'.nd m = s.nd m := by
+  unfold State.nd; rw [h.1]
+
+theorem keys_map_same (l : List (String × String × String × Nat)) (p : String × String × String × Nat → Bool) (st : String) :
+    (l.map (fun r => if p r = true then (r.1, r.2.1, st, r.2.2.2) else r)).map (fun r => (r.1, r.2.1)) =
+      l.map (fun r => (r.1, r.2.1)) := by
+  induction l with
+  | nil => rfl
+  | cons a r ih =>
+    simp only [List.map_cons, ih]
+    by_cases h : p a = true <;> simp [h]
+
+theorem resumeTest_eff (g : Graph) (hwf : graphWF g = true) (s : State) (w n : Nat) (ph : Phase) (dir : Dir) (uid : String)
+    (tag wait : Nat) (out : Outcome) (fuel : Nat) (hf : 0 < fuel) (hw : w < s.workers.length)
+    (hpath : ∀ x ∈ (s.wd w).path, x < g.nodes.length) :
+    TestEff g s w n ph dir uid tag wait out (resumeTest g s w n ph dir uid tag wait out fuel).1 := by
+  have hnm : (if (ph == Phase.pre) = true then (s.wd w).preName else (g.node n).name) =
+      (if ph = .pre then (s.wd w).preName else (g.node n).name) := by
+    cases ph <;> rfl
+  unfold resumeTest
+  extract_lets wid name
+  have hname : name = (if ph = .pre then (s.wd w).preName else (g.node n).name) := hnm
+  split
+  rename_i sa evs heq
+  have hrep : RepEff s name uid wait out sa := by
+    by_cases hw0 : wait = 0
+    · cases hst : out.status with
+      | none =>
+        simp only [hw0, hst, BEq.rfl, if_true, Prod.mk.injEq] at heq
+        exact Or.inl heq.1.symm
+      | some st =>
+        simp only [hw0, hst, BEq.rfl, if_true, Prod.mk.injEq] at heq
+        right
+        refine ⟨hw0, st, hst, ?_⟩
+        rw [← heq.1]
+        split
+        · exact ⟨⟨rfl, rfl, rfl⟩, rfl⟩
+        · exact ⟨⟨rfl, rfl, rfl⟩, rfl⟩
+    · have : ¬ (wait == 0) = true := by simpa using hw0
+      simp only [this, Bool.false_eq_true, if_false, Prod.mk.injEq] at heq
+      exact Or.inl heq.1.symm
+  have hsaw : sa.workers = s.workers := by
+    rcases hrep with h | ⟨_, _, _, h, _⟩
+    · rw [h]
+    · exact h.2.1
+  have hsawd : sa.wd w = s.wd w := by unfold State.wd; rw [hsaw]
+  refine ⟨sa, hname ▸ hrep, ?_⟩
+  rw [← hname]
+  cases hfind : List.find? (fun r => r.fst == name && r.snd.fst == uid) sa.jobResults with
+  | some e =>
+    left
+    obtain ⟨e1, e2, st0, dur⟩ := e
+    refine ⟨_, rfl, ?_⟩
+    dsimp -zeta only
+    extract_lets prior maxAllowed maxAllowed2 st sb res sc ok
+    refine ⟨sb, res, ok, ?_, ?_, rfl, ?_⟩
+    · show SameBook sa (if (st != st0) = true then _ else sa)
+      split
+      · exact ⟨rfl, rfl, rfl⟩
+      · exact ⟨rfl, rfl, rfl⟩
+    · show keys (if (st != st0) = true then _ else sa) = keys sa
+      split
+      · exact keys_map_same _ _ _
+      · rfl
+    · have hsbw : sb.workers = sa.workers := by
+        show (if (st != st0) = true then _ else sa).workers = sa.workers
+        split <;> rfl
+      have hsc : sc = (if ph = .pre then settlePre sb w res tag else settleNd sb n res tag) := by
+        show (if (ph == Phase.pre) = true then _ else _) = _
+        by_cases hp : ph = .pre
+        · simp only [hp, if_true]; rfl
+        · have : ¬ (ph == Phase.pre) = true := fun h => hp ((phase_beq_pre ph).mp h)
+          simp only [hp, this, Bool.false_eq_true, if_false]; rfl
+      rw [← hsc]
+      have hscw : sc.workers.length = s.workers.length := by
+        rw [hsc]
+        split
+        · show (sb.setWd w _).workers.length = _
+          rw [workers_length_setWd, hsbw, hsaw]
+        · show sb.workers.length = _
+          rw [hsbw, hsaw]
+      have hscp : (sc.wd w).path = (s.wd w).path := by
+        have hsbwd : sb.wd w = s.wd w := by unfold State.wd; rw [hsbw, hsaw]
+        rw [hsc]
+        split
+        · unfold settlePre
+          rw [wd_setWd_eq sb w _ (by rw [hsbw, hsaw]; exact hw), hsbwd]
+        · show (sb.wd w).path = _
+          rw [hsbwd]
+      exact continueAfter_eff g hwf w n ph dir fuel hf sc ok evs (by rw [hscw]; exact hw) (by rw [hscp]; exact hpath)
+  | none =>
+    right
+    refine ⟨rfl, ?_⟩
+    dsimp only
+    have hc := continueAfter_eff g hwf w n ph dir fuel hf sa false evs (by rw [hsaw]; exact hw) (by rw [hsawd]; exact hpath)
+    split
+    · exact Or.inl rfl
+    · split
+      · exact Or.inl rfl
+      · exact Or.inr hc
+
+/-- shape of a whole step -/
+theorem resume_eff (g : Graph) (hwf : graphWF g = true) (s : State) (w : Nat) (out : Outcome) (fuel : Nat) (hf : 0 < fuel)
+    (hw : w < s.workers.length) (hpath : ∀ x ∈ (s.wd w).path, x < g.nodes.length) :
+    ((s.wd w).pc.isTest = false ∧
+      (((Silent g w s (resume g s w out fuel).1 ∧ ((resume g s w out fuel).1.wd w).pc.isTest = false)) ∨
+        ∃ s1, Silent g w s s1 ∧ StartFrom g w s1 (resume g s w out fuel).1)) ∨
+    (∃ n ph dir uid tag wait, (s.wd w).pc = .test n ph dir uid tag wait ∧
+      TestEff g s w n ph dir uid tag wait out (resume g s w out fuel).1) := by
+  unfold resume
+  cases hpc : (s.wd w).pc with
+  | loop => left; exact ⟨rfl, runLoop_eff_pos g hwf w fuel hf s [] hw hpath⟩
+  | bounce => left; exact ⟨rfl, runLoop_eff_pos g hwf w fuel hf s [] hw hpath⟩
+  | done => left; exact ⟨rfl, Or.inl ⟨Silent.refl g w s, by rw [hpc]; rfl⟩⟩
+  | failed => left; exact ⟨rfl, Or.inl ⟨Silent.refl g w s, by rw [hpc]; rfl⟩⟩
+  | test n ph dir uid tag wait =>
+    right
+    exact ⟨n, ph, dir, uid, tag, wait, rfl, resumeTest_eff g hwf s w n ph dir uid tag wait out fuel hf hw hpath⟩
+
 end I2N.Trav
